@@ -20,7 +20,7 @@ RULE = ("generated .sm texts: 1-4 charts of every keyed chart type (and unkeyed 
         "R in {4,8,12,16,24,32,48,64,96,192} and {20,28,36,40,44,52,60,100} rows (non-multiples of 4 on an out-of-domain stream), symbols 1 2 3 4 M L F K "
         "(well-bracketed per column on the main stream, arbitrary on a side stream), comment and blank lines, "
         "1-5 tempo changes on 1/16-beat decimals (other decimals out of domain), #OFFSET of both signs, "
-        "shuffled string tags, rows wider than the library's key table (dance-couple 8 columns, +1/2/4 columns), a quarter of the cases through read_file on LF / CRLF / bare-CR files, malformed texts compared on the error class; non-trivial = at least one tempo change "
+        "shuffled string tags, rows wider than the library's key table (dance-couple 8 columns, +1/2/4 columns), a quarter of the cases through read_file on LF / CRLF / bare-CR files, a fifth of the rest through read(list of lines), an 'exotic' stream with FF VT FS GS RS NEL U+2028 U+2029 (line boundaries of str.splitlines() only), Unicode whitespace, zero-width / BOM / astral characters inside // comments between rows and header lines and inside / at the ends of header values and chart header fields, each text through read(str), read(list) and read_file which must all agree with the model and the denotation, malformed texts compared on the error class; non-trivial = at least one tempo change "
         "after beat 0 with an object behind it, or a hold/roll, or >= 2 charts")
 ASSUMPTIONS = [
     "numbers in the text follow [ws][+-]digits[.digits][e[+-]digits][ws] (Python's inf/nan/1_0 forms are outside the model)",
@@ -48,6 +48,11 @@ WORDS = ["Song", "a b", "Ünï", "日本", "x-1", "mix (v2)", "", "A", "file.ogg
 DIFFS = ["Beginner", "Easy", "Medium", "Hard", "Challenge", "Edit"]
 TAPS = "1MLFK"
 EOLS = dict(lf="\n", crlf="\r\n", cr="\r")
+# characters that are line boundaries for str.splitlines() but not line ends of a .sm text (only \n, and \r / \r\n in
+# a file, end a line), and other non-ASCII: whitespace for str.strip(), format characters, an astral character
+ODD_BREAKS = ["\x0b", "\x0c", "\x1c", "\x1d", "\x1e", "\x85", "\u2028", "\u2029"]
+ODD_OTHER = ["\xa0", "\u3000", "\u200b", "\ufeff", "\u00e9", "\u65e5\u672c", "\U0001d11e", "\x1f", "\t"]
+ENTRIES = ("str", "list", "file")
 # the columns of a chart are the characters of its rows; for these types the library's key table is narrower than the rows
 WIDTH = dict(KEYED, **{"dance-couple": 8})
 
@@ -206,7 +211,7 @@ def gen(rng, tier, i):
     x = rng.random()
     stream = "main"
     if x > 0.70:
-        stream = rng.choice(["badrows", "offgrid", "unbracketed", "errors", "nostops", "comments"])
+        stream = rng.choice(["badrows", "offgrid", "unbracketed", "errors", "nostops", "comments", "exotic", "exotic"])
     small = tier == "quick" and rng.random() < 0.6
     ncharts = rng.choice([1, 1, 1, 2, 2, 3, 4]) if not small else rng.choice([1, 1, 2])
     charts = [gen_chart(rng, stream, small) for _ in range(ncharts)]
@@ -239,6 +244,10 @@ def gen(rng, tier, i):
         damage(rng, case)
     if stream == "comments":
         risky(rng, case)
+    if stream == "exotic":
+        exotic(rng, case)
+    elif "eol" not in case and rng.random() < 0.2:
+        case["entry"] = "list"           # SMMapSet.read(list of lines)
     return case
 
 
@@ -300,6 +309,47 @@ def risky(rng, case):
             m.insert(pos, "// a, b")
 
 
+def odd_text(rng, inner=True):
+    """a few words with one to three of the odd characters between / around them"""
+    ws = [rng.choice(["a", "b2", "Song", "x y", "1000", "0100"]) for _ in range(rng.randint(1, 3))]
+    out = ws[0]
+    for w in ws[1:]:
+        out += rng.choice(ODD_BREAKS if rng.random() < 0.7 else ODD_OTHER) + w
+    x = rng.random()
+    if len(ws) == 1 or x < 0.3:
+        ch = rng.choice(ODD_BREAKS + ODD_OTHER)
+        k = rng.choice(["pre", "post", "mid"] if inner else ["mid"])
+        out = ch + out if k == "pre" else out + ch if k == "post" else out[:1] + ch + out[1:]
+    return out
+
+
+def exotic(rng, case):
+    """odd characters (line boundaries of str.splitlines() that are not .sm line ends, Unicode whitespace, format and
+    astral characters) inside `//` comments between the rows of a chart and between the header lines, inside and at
+    the ends of header values and chart header fields (rows themselves stay bare: the reader does not trim rows, which
+    is the lexical domain recorded in the manifest)"""
+    items = case["items"]
+    charts = [it[1] for it in items if it[0] == "chart"]
+    n = 0
+    for _ in range(rng.randint(1, 4)):
+        k = rng.choice(["row-comment", "row-comment", "row-comment", "hdr-comment", "value", "value", "field"])
+        if k == "row-comment":
+            m = rng.choice(rng.choice(charts)["measures"])
+            m.insert(rng.randint(0, len(m)), rng.choice(["//", "// ", "  //"]) + odd_text(rng))
+        elif k == "hdr-comment":
+            items.insert(rng.randint(0, len(items)), ["comment", odd_text(rng)])
+        elif k == "value":
+            ts = [it for it in items if it[0] == "tag" and it[1] in STR_TAGS]
+            if ts:
+                rng.choice(ts)[2] = odd_text(rng)
+            else:
+                items.insert(0, ["tag", rng.choice(STR_TAGS), odd_text(rng)])
+        elif k == "field":
+            rng.choice(charts)[rng.choice(["desc", "diff"])] = odd_text(rng)
+        n += 1
+    case["entry"] = "all"
+
+
 def corpus():
     base = ("#TITLE:t;\n#OFFSET:-0.5;\n#BPMS:0.000=120.000,\n4.5=60;\n%s#NOTES:\n dance-single:\n d:\n Hard:\n 5:\n 0,0,0,0,0:\n"
             "1000\n0100\n0010\n0001\n,\n2000\n0000\n3000\n0000\n;\n")
@@ -326,6 +376,12 @@ def corpus():
          # dance-couple rows have 8 columns although the library's key table says 4: every column is returned
          dict(claim="read", stream="main", text=(
              "#OFFSET:0;\n#BPMS:0=120;\n#STOPS:;\n#NOTES:\n dance-couple:\n :\n Hard:\n 1:\n 0:\n10000001\n00002000\n0M003000\n0000010K\n;\n")),
+         # characters that end a line for str.splitlines() but not in a .sm text (NEL, LS, FF) inside a comment between
+         # rows, inside a header value and after a row: one line / one value / stripped, the same through read(str),
+         # read(list) and read_file
+         dict(claim="read", stream="exotic", entry="all", text=(base % "#STOPS:;\n").replace("0100\n", "0100\n// part\x85two\u2028three\n")),
+         dict(claim="read", stream="exotic", entry="all", eol="crlf",
+              text=(base % "#STOPS:;\n").replace("#TITLE:t;", "#TITLE:a\x0cb\u2029c;").replace("0010\n", "0010\x0c\n")),
          ]
     return c
 
@@ -336,6 +392,8 @@ SAFE = set("abcdefghijklmnopqrstuvwxyzABCDEFGHIJKLMNOPQRSTUVWXYZ0123456789 .-()_
 def valid(case):
     try:
         if case.get("claim") != "read" or case.get("eol") not in (None, "lf", "crlf", "cr"):
+            return False
+        if case.get("entry") not in (None, "str", "list", "all"):
             return False
         if "text" in case:
             return isinstance(case["text"], str) and "\\" not in case["text"] and "\r" not in case["text"]
@@ -498,10 +556,37 @@ def risky_comment(text):
 
 
 def run(case, drv):
+    """one entry point per case (read(str); read(list of lines) when `entry` = "list"; read_file when `eol` is set), or -
+    `entry` = "all" - the same text through all three, each of which must agree with the model and the denotation"""
+    ent = case.get("entry")
+    if ent != "all":
+        return _run_entry(case, drv, "file" if case.get("eol") else ("list" if ent == "list" else "str"))
+    res = None
+    for e in ENTRIES:
+        r = _run_entry(case, drv, e)
+        if res is None:
+            res = r
+            continue
+        bad_before = not (res["ok"] and res["agree"])
+        bad_now = not (r["ok"] and r["agree"])
+        merged = dict(r if (bad_now and not bad_before) else res)
+        merged["ok"] = bool(res["ok"] and r["ok"])
+        merged["agree"] = bool(res["agree"] and r["agree"])
+        merged["dom"] = bool(res.get("dom") and r.get("dom"))
+        merged["kf"] = res.get("kf") or r.get("kf")
+        merged["tags"] = sorted(set(res["tags"]) | set(r["tags"]))
+        merged["nontrivial"] = bool(res.get("nontrivial") or r.get("nontrivial"))
+        merged["maxdev"] = max(res.get("maxdev", 0.0), r.get("maxdev", 0.0))
+        merged["boundary"] = bool(res.get("boundary") or r.get("boundary"))
+        res = merged
+    return res
+
+
+def _run_entry(case, drv, entry):
     text = render(case)
     stream = case.get("stream", "main")
-    tags = [stream]
-    eol = case.get("eol")
+    tags = [stream, "entry-" + entry]
+    eol = (case.get("eol") or "lf") if entry == "file" else None
     if eol:
         # through SMMapSet.read_file on a temporary file with LF / CRLF / bare-CR line ends
         import os
@@ -518,7 +603,8 @@ def run(case, drv):
         den = drv.call("c02.denote_file", text=ftext)["ok"]
         tags.append("file-" + eol)
     else:
-        impl = impl_read(text)
+        # read(list): the lines of the text (the reader joins them with "\n" again - the same text)
+        impl = impl_read(text.split("\n") if entry == "list" else text)
         model = drv.call("c02.read", text=text)
         den = drv.call("c02.denote", text=text)["ok"]
     detail = {}
@@ -651,6 +737,8 @@ def run(case, drv):
         detail["why"] = why
         detail["impl"] = _show(impl)
         detail["spec"] = den
+    if not (ok and agree):
+        detail["entry"] = entry
     return dict(claim="read", ok=ok, agree=agree, dom=dom, kf=kf, tags=tags, nontrivial=bool(nontrivial), maxdev=maxdev,
                 boundary=boundary, detail=detail)
 
